@@ -299,6 +299,12 @@ func scripted() []struct {
 			begin(0), stmt(upd(0, 1, true, VInt(30))), stmt(ins(0, "insert", 3, VInt(10), n)), commit(0),
 			{Act: "auto", Stmts: []Stmt{{Kind: "upd", ColV: false, X: VStr("q")}}},
 			{Act: "auto", Stmts: []Stmt{{Kind: "ins", Mode: "upsert", Rows: []InsRow{{HasID: true, ID: VInt(1), V: VInt(10), S: VStr("w")}, {HasID: true, ID: VInt(2), V: VInt(20), S: VStr("e")}}}}}}},
+		// composite UNIQUE index on (v, s): changing one indexed column while keeping the other
+		{Cfg{MaxLen: 3, UComp: true}, []Event{uq, nq, ins(0, "insert", 1, VInt(1), VStr("a")), ins(0, "insert", 2, VInt(2), VStr("a")),
+			upd(0, 2, true, VInt(1)), ins(0, "upsert", 2, VInt(1), VStr("a")), upd(0, 2, false, VStr("b")), upd(0, 2, true, VInt(1)),
+			upd(0, 2, false, VStr("a")), ins(0, "insert", 3, VInt(1), n), ins(0, "insert", 4, VInt(1), n), ins(0, "upsert", 1, VInt(1), VStr("b")),
+			begin(0), begin(1), stmt(ins(0, "insert", 5, VInt(7), VStr("c"))), stmt(ins(1, "insert", 6, VInt(7), VStr("c"))), commit(0), commit(1),
+			begin(0), stmt(upd(0, 1, true, VInt(9))), stmt(upd(0, 2, true, VInt(9))), commit(0)}},
 		// explicit keys around table.maxPK: equal to it after its row was deleted, one below, one above
 		{Cfg{AutoInc: true, MaxLen: 2}, []Event{
 			{Act: "auto", Stmts: []Stmt{{Kind: "ins", Mode: "insert", Rows: []InsRow{{V: VInt(1), S: n}, {V: VInt(2), S: n}, {V: VInt(3), S: n}}}}},
@@ -314,6 +320,17 @@ func Gen(r *vk.Run, n int) error {
 			return err
 		}
 	}
+	// wide stream: generalised schemas, ALTER TABLE, 2-3 sessions with DDL (direct oracle only)
+	for i := range scriptedWide() {
+		if err := runWide(r, i); err != nil {
+			return err
+		}
+	}
+	for i := 0; i < n/2; i++ {
+		if err := runWide(r, -1); err != nil {
+			return err
+		}
+	}
 	g := &gen{rng: r.Rng}
 	for i := 0; i < n; i++ {
 		g.cfg = Cfg{
@@ -321,6 +338,7 @@ func Gen(r *vk.Run, n int) error {
 			NotNull: r.Rng.Intn(3) == 0,
 			MaxLen:  1 + r.Rng.Intn(4),
 			Check:   r.Rng.Intn(3) == 0,
+			UComp:   r.Rng.Intn(3) == 0,
 		}
 		sessions := 1
 		bucket := "one-session"
